@@ -92,7 +92,7 @@ func verifRangeVerify(r *shwap.RangeNamespaceData, from, to shwap.SampleCoords, 
 
 // feeds the hasher one block with an arbitrary inner CID (length of the
 // requested CID -1..+1), then - after a rejection - a second one
-func verifFeed(want []byte, idSize int) (hs *hasher, werr error) {
+func verifFeed(want []byte, mhCode uint64) (hs *hasher, werr error) {
 	switch nd.Choice(3, "cidlen") {
 	case 0:
 		verifInner = nd.Bytes(len(want), "cid")
@@ -103,16 +103,16 @@ func verifFeed(want []byte, idSize int) (hs *hasher, werr error) {
 	}
 	verifDecodes, verifVerifies = nd.Bool("container.decodes"), nd.Bool("container.verifies")
 	verifVerifyCalls = 0
-	hs = &hasher{IDSize: idSize}
+	hs = verifHasherFor(mhCode)
 	return hs, hs.write([]byte{0})
 }
 
 // the second block: exactly the requested CID; the verdict is arbitrary again
-func verifSecond(want []byte, idSize int) (hs *hasher, werr error) {
+func verifSecond(want []byte, mhCode uint64) (hs *hasher, werr error) {
 	verifInner = append([]byte(nil), want...)
 	verifDecodes, verifVerifies = true, nd.Bool("second.verifies")
 	verifVerifyCalls = 0
-	hs = &hasher{IDSize: idSize}
+	hs = verifHasherFor(mhCode)
 	return hs, hs.write([]byte{0})
 }
 
@@ -130,11 +130,11 @@ func VerifH_C10_RowHasherAcceptsOnlyRequested() {
 	wantBytes := want.Bytes()
 	idBytes, _ := blk.ID.MarshalBinary()
 
-	hs, werr := verifFeed(wantBytes, shwap.RowIDSize)
+	hs, werr := verifFeed(wantBytes, rowMultihashCode)
 	if werr != nil {
 		nd.Cover("rejected")
 		nd.Assert(blk.Container.IsEmpty(), "rejected-block-leaves-the-request-unfulfilled")
-		hs, werr = verifSecond(wantBytes, shwap.RowIDSize)
+		hs, werr = verifSecond(wantBytes, rowMultihashCode)
 		if werr != nil {
 			nd.Cover("second-rejected")
 			nd.Assert(!verifVerifies && blk.Container.IsEmpty(), "rejected-block-leaves-the-request-unfulfilled")
@@ -167,11 +167,11 @@ func VerifH_C10_RowNamespaceDataHasherAcceptsOnlyRequested() {
 	wantBytes := want.Bytes()
 	idBytes, _ := blk.ID.MarshalBinary()
 
-	hs, werr := verifFeed(wantBytes, shwap.RowNamespaceDataIDSize)
+	hs, werr := verifFeed(wantBytes, rowNamespaceDataMultihashCode)
 	if werr != nil {
 		nd.Cover("rejected")
 		nd.Assert(blk.Container.IsEmpty(), "rejected-block-leaves-the-request-unfulfilled")
-		hs, werr = verifSecond(wantBytes, shwap.RowNamespaceDataIDSize)
+		hs, werr = verifSecond(wantBytes, rowNamespaceDataMultihashCode)
 		if werr != nil {
 			nd.Cover("second-rejected")
 			nd.Assert(!verifVerifies && blk.Container.IsEmpty(), "rejected-block-leaves-the-request-unfulfilled")
@@ -214,12 +214,12 @@ func VerifH_C10_RangeHasherAcceptsOnlyRequested() {
 	verifInner = other.CID().Bytes()
 	verifDecodes, verifVerifies = nd.Bool("container.decodes"), nd.Bool("container.verifies")
 	verifVerifyCalls = 0
-	hs := &hasher{IDSize: shwap.RangeNamespaceDataIDV0Size}
+	hs := verifHasherFor(rangeNamespaceDataMultihashCode)
 	werr := hs.write([]byte{0})
 	if werr != nil {
 		nd.Cover("rejected")
 		nd.Assert(blk.Container.IsEmpty(), "rejected-block-leaves-the-request-unfulfilled")
-		hs, werr = verifSecond(wantBytes, shwap.RangeNamespaceDataIDV0Size)
+		hs, werr = verifSecond(wantBytes, rangeNamespaceDataMultihashCode)
 		if werr != nil {
 			nd.Cover("second-rejected")
 			nd.Assert(!verifVerifies && blk.Container.IsEmpty(), "rejected-block-leaves-the-request-unfulfilled")
@@ -238,4 +238,55 @@ func VerifH_C10_RangeHasherAcceptsOnlyRequested() {
 	nd.Assert(a.nRoots == a.to.Row-a.from.Row+1, "container-verified-against-the-rows-of-the-range")
 	nd.Assert(!blk.Container.IsEmpty(), "request-fulfilled")
 	nd.Assert(bytes.Equal(hs.Sum(nil), idBytes), "digest-is-the-requested-id")
+}
+
+// A hasher is registered per block type; Bitswap picks it by the multihash
+// code of the CID prefix a block is ANNOUNCED under and takes the digest it
+// returns as the identifier of a wanted block of that type. A block whose
+// inner CID is of another type must therefore be refused - even when a request
+// for that other identifier is pending and the container verifies for it -
+// otherwise bytes carrying a range identifier fulfil a pending sample request
+// (both identifiers are 12 bytes), or a row-namespace-data block (digest cut to
+// the announced length) a pending row request, with nothing filled in.
+//
+//verif:opts nopanic cover=sametype,othertype
+func VerifH_C10_HasherOfOneTypeRefusesBlocksOfAnother() {
+	h := nd.U64("height")
+	size := 4
+	root := &share.AxisRoots{RowRoots: make([][]byte, size), ColumnRoots: make([][]byte, size)}
+	codes := []uint64{sampleMultihashCode, rowMultihashCode, rowNamespaceDataMultihashCode, rangeNamespaceDataMultihashCode}
+	// the pending request: an arbitrary identifier of an arbitrary type
+	pend := nd.Choice(4, "pendingType")
+	var blk Block
+	var err error
+	switch pend {
+	case 0:
+		blk, err = NewEmptySampleBlock(h, shwap.SampleCoords{Row: nd.Int("row"), Col: nd.Int("col")}, size)
+	case 1:
+		blk, err = NewEmptyRowBlock(h, nd.Int("row"), size)
+	case 2:
+		blk, err = NewEmptyRowNamespaceDataBlock(h, nd.Int("row"), verifNsForCID(), size)
+	case 3:
+		blk, err = NewEmptyRangeNamespaceDataBlock(h, nd.Int("from"), nd.Int("to"), size/2)
+	}
+	if err != nil {
+		nd.End()
+	}
+	want := blk.CID()
+	unmarshalFns.Store(want, &unmarshalEntry{UnmarshalFn: blk.UnmarshalFn(root)})
+	// an honest block for that request (decodes, verifies) ...
+	verifInner = want.Bytes()
+	verifDecodes, verifVerifies = true, true
+	verifSampleHonest = true
+	// ... announced under the multihash code of an arbitrary block type
+	ann := nd.Choice(4, "announcedType")
+	hs := verifHasherFor(codes[ann])
+	werr := hs.write([]byte{0})
+	if ann == pend {
+		nd.Cover("sametype")
+		nd.Assert(werr == nil, "honest-block-of-the-requested-type-is-accepted")
+		return
+	}
+	nd.Cover("othertype")
+	nd.Assert(werr != nil, "hasher-refuses-a-block-of-another-type")
 }
